@@ -149,11 +149,13 @@ struct Sc {
     /// the import of the sibling branch (if/else scopes)
     other: Option<ImpTree>,
     id: u32,
+    /// number of imports of an import ladder placed in this scope (0 = none)
+    ladder: u8,
 }
 
 impl Sc {
     fn new(kind: SK, module: usize, id: u32) -> Sc {
-        Sc { kind, module, param: None, stmts: Vec::new(), other: None, id }
+        Sc { kind, module, param: None, stmts: Vec::new(), other: None, id, ladder: 0 }
     }
     fn locals(&self) -> Vec<(&str, i32, bool)> {
         let mut v = Vec::new();
@@ -889,6 +891,49 @@ impl Gen<'_> {
         }
     }
 
+    /// See `gen_site`. Nothing is added unless the oracle accepts the scope with the ladder.
+    fn gen_ladder(&self, chain: &mut [Sc], s: usize, rng: &mut Rng) {
+        let t = self.t;
+        // a path of modules root -> c1 (-> c2), starting anywhere in the tree
+        let starts: Vec<usize> = (0..t.mods.len()).filter(|&m| !t.mods[m].children.is_empty()).collect();
+        if starts.is_empty() {
+            return;
+        }
+        let m0 = *rng.pick(&starts);
+        let c1 = *rng.pick(&t.mods[m0].children);
+        let c2 = if !t.mods[c1].children.is_empty() && rng.chance(3, 4) { Some(*rng.pick(&t.mods[c1].children)) } else { None };
+        let last = c2.unwrap_or(c1);
+        if t.mods[last].items.is_empty() {
+            return;
+        }
+        let item = rng.pick(&t.mods[last].items).name.to_string();
+        // absolute path of c1
+        let mut abs = vec![t.mods[c1].name.clone()];
+        let mut cur = m0;
+        while let Some(p) = t.mods[cur].parent {
+            abs.push(t.mods[cur].name.clone());
+            cur = p;
+        }
+        abs.push("pkg".to_string());
+        abs.reverse();
+        let mut imps = vec![ImpTree::Leaf(abs)];
+        if let Some(c2) = c2 {
+            imps.push(ImpTree::Leaf(vec![t.mods[c1].name.clone(), t.mods[c2].name.clone()]));
+        }
+        imps.push(ImpTree::Leaf(vec![t.mods[last].name.clone(), item]));
+        let before = chain[s].stmts.len();
+        let n = imps.len();
+        for i in imps {
+            chain[s].stmts.push(St::Imp(i));
+        }
+        let orc = Orc { t };
+        if matches!(orc.check_chain(chain), Ok(None)) {
+            chain[s].ladder = n as u8;
+        } else {
+            chain[s].stmts.truncate(before);
+        }
+    }
+
     /// A chain of scopes for a probe in module `m`.
     fn gen_site(&mut self, m: usize, rng: &mut Rng, naughty: bool) -> Vec<Sc> {
         let depth = rng.weighted(&[3, 3, 3, 2]);
@@ -954,6 +999,13 @@ impl Gen<'_> {
                 if !matches!(orc.check_chain(&chain), Ok(None) ) && !naughty {
                     chain[s].other = None;
                 }
+            }
+            // An import ladder: 2-3 imports of one scope in which each needs the name the
+            // previous one binds (`import pkg.a; import a.b; import b.f;`). The statements are
+            // shuffled below (and a reference through the last one is tried in all orders), so
+            // the ladder is met top-down, bottom-up and mixed: imports are order independent.
+            if d <= 1 && rng.chance(1, 5) {
+                self.gen_ladder(&mut chain, s, rng);
             }
             rng.shuffle(&mut chain[s].stmts);
         }
@@ -1320,6 +1372,9 @@ fn gen_case(rng: &mut Rng, thorough: bool) -> Case {
                 }
                 for sc in &chain[2..] {
                     tags.push(format!("block:{}", sc.kind.label()));
+                }
+                if tr.binder == "import" && chain[tr.bscope].ladder > 0 {
+                    tags.push(format!("import-ladder:{}", chain[tr.bscope].ladder));
                 }
                 // all orders of the import statements of the deciding scope (<= 3 imports), once per tree
                 let bs = tr.bscope;
